@@ -59,7 +59,8 @@ CONSTANTS
   CurSeeks,     \* TRUE: cursors also Seek
   PutPaths,     \* buckets in which Put/Delete are exercised
   BucketOps,    \* TRUE: CreateBucket/DeleteBucket are exercised
-  PreBuckets    \* buckets (depth 1) that exist, flushed, before the behaviour starts
+  PreBuckets,   \* buckets (depth 1) that exist, flushed, before the behaviour starts
+  PreCache      \* root keys put by one committed, NOT flushed transaction before the behaviour starts
 
 VARIABLES
   ldb, ck, cr,      \* durable map; cached puts (function) and removes (set)
@@ -206,22 +207,31 @@ PreSeq == SelectSeq(NameOrder, LAMBDA n : <<n>> \in PreBuckets)
 InitLdb == (WKey :> [f |-> 0, o |-> 0]) @@ (CKey :> 1 + Len(PreSeq))
            @@ [rk \in {BKey(0, PreSeq[i]) : i \in DOMAIN PreSeq} |->
                  1 + (CHOOSE i \in DOMAIN PreSeq : PreSeq[i] = rk[3])]
-InitModel == [kv |-> [p \in {<<>>} \cup {<<PreSeq[i]>> : i \in DOMAIN PreSeq} |-> EmptyFn], blk |-> {}]
+BaseModel == [kv |-> [p \in {<<>>} \cup {<<PreSeq[i]>> : i \in DOMAIN PreSeq} |-> EmptyFn], blk |-> {}]
+PreVal == CHOOSE v \in ValSet : v # ""
+\* that transaction leaves its keys and the write cursor row in the cache
+InitCk == IF PreCache = {} THEN EmptyFn
+          ELSE [rk \in {KKey(0, k) : k \in PreCache} \cup {WKey} |->
+                  IF rk = WKey THEN [f |-> 0, o |-> 0] ELSE PreVal]
+InitModel == IF PreCache = {} THEN BaseModel
+             ELSE [BaseModel EXCEPT !.kv[<<>>] = [k \in PreCache |-> PreVal]]
 
 Init ==
-  /\ ldb = InitLdb /\ ck = EmptyFn /\ cr = {}
+  /\ ldb = InitLdb /\ ck = InitCk /\ cr = {}
   /\ files = EmptyFn
   /\ wc = [f |-> 0, o |-> 0, open |-> FALSE]
   /\ txs = [h \in Handles |-> ClosedTx]
   /\ cm = NoCm
-  /\ model = InitModel /\ recov = {InitModel}
+  /\ model = InitModel /\ recov = {BaseModel, InitModel}
   /\ up = TRUE
   /\ everPruned = {}
   /\ cnt = [tx |-> 0, rd |-> 0, crash |-> 0]
   /\ last = [a |-> "Init", keys |-> KeyOrder, vals |-> ValSet, names |-> NameOrder,
               depth |-> MaxDepth, blocks |-> BlockOrder,
               rawlen |-> [i \in DOMAIN BlockOrder |-> RawLen[BlockOrder[i]]],
-              limit |-> Limit, target |-> PruneTarget, power |-> PowerLoss, pre |-> PreSeq]
+              limit |-> Limit, target |-> PruneTarget, power |-> PowerLoss, pre |-> PreSeq,
+              precache |-> SelectSeq(KeyOrder, LAMBDA k : k \in PreCache),
+              preval |-> IF PreCache = {} THEN "" ELSE PreVal]
   /\ obs = Obs
 
 -----------------------------------------------------------------------------
@@ -316,7 +326,7 @@ SortedNums(S) == LET RECURSIVE R(_)
                  IN R(S)
 
 Prune ==
-  /\ WOpen /\ ~txs[W].pruned
+  /\ WOpen /\ ~txs[W].pruned /\ Blocks # {}
   /\ LET t == txs[W] E == TxEff(t) D == PruneFiles
          gone == {b \in AbsBlk(E) : E[IKey(b)].f \in D} IN
      WUpd([DelKeys(t, {IKey(b) : b \in gone}) EXCEPT
